@@ -150,6 +150,16 @@ def price_world(chk, rng, wi):
                     d.apply(w)
                     plan.append(d)
                     declared[(xt, cur, xu)] = sym
+                    if rng.random() < 0.2:
+                        # a price unit that contains the currency only
+                        # indirectly: a multiple of the unit just declared
+                        # (cents per ...)
+                        csym = "c" + sym
+                        d2 = Decl("scaled", t=tnames[xt], sym=csym,
+                                  k=F(1, 100), parent=sym)
+                        d2.apply(w)
+                        plan.append(d2)
+                        declared[(xt, cur, xu + "#c")] = csym
     pre = [{"id": "Money", "e": MONEY}] + \
           [{"id": xt, "e": ["g", "quantity.predefined:" + xt]}
            for xt in XTYPES] + \
@@ -300,6 +310,8 @@ def price_world(chk, rng, wi):
     for (xt, cur, xu), sym in sorted(declared.items()):
         if late >= 3:
             break
+        if "#" in xu or sym is None:
+            continue
         for tgt in CURS:
             if tgt == cur:
                 continue
